@@ -5,12 +5,14 @@
     * / %, + -, the seven relations, && / || chains of any length, ?:, explicit parentheses,
     field selection, indexing, member and global calls - a macro call being the tree its expander
     builds around the receiver's and the arguments' trees (C04_macro_trees) -, list, map
-    and message literals (dotted type names, with or without the leading dot) - rendered with minimal parentheses: at token level with the fuel [compile]
+    and message literals (dotted type names, with or without the leading dot), each with or
+    without the optional trailing comma ([,] and {,} included), identifiers and global calls with
+    a leading dot, selection of back-quoted fields - rendered with minimal parentheses: at token level with the fuel [compile]
     itself uses (the parse holds for all sufficient fuel, more fuel never changes an answer,
     and the parser's own fuel is never exhausted), and from source text; the operand order of
     && / || chains; the cancellation of prefix runs; that macros expand around their receiver
-    and arguments.  Outside the round-trip theorem: trailing commas and the
-    optional-field syntax the parser refuses; the correspondence run covers those (every tree with up to 2 (thorough: 3)
+    and arguments.  Outside the round-trip theorem: back-quoted field names inside
+    message literals and the optional-field syntax the parser refuses; the correspondence run covers those (every tree with up to 2 (thorough: 3)
     operators, random deeper ones, fully and minimally parenthesised) and checks on every tree
     of the theorem's domain that the real lexer's tokens are the rendering [raw]. *)
 From Coq Require Import String Ascii.
@@ -151,6 +153,23 @@ Example C04_ex_macro :
                                           (ESelect (EIdent $"y") $"f" true); EIdent $"b"].
 Proof. vm_compute. repeat split; try discriminate; reflexivity. Qed.
 
+(** A back-quoted identifier with a non-empty body of the characters the token rule allows is read
+    back as one token, so selections of such fields are trees of the source-text theorem too. *)
+Theorem C04_escident_lexable : forall body, body <> [] -> forallb is_esc_ident_char body = true ->
+  lexable (TEscIdent (96%N :: body ++ [96%N])).
+Proof. exact lexable_escident. Qed.
+
+(** [.g(1, ), {,}, .pkg.T{f: .x,}].`a-b` : trailing commas, leading dots, a back-quoted field *)
+Example C04_ex_trailing :
+  let t := SSelEsc (SLstT [SDotCall $"g" [SLit (LInt 1)]; SMapT []; SMsgT true [$"pkg"; $"T"] [($"f", SDotId $"x")]]) $"`a-b`" in
+  wf_st t /\ ids_ok t /\ compile (text (raw t)) = CExpr (ast t) /\
+  compile $"[.g(1), {,}, .pkg.T{f: .x,},].`a-b`" = CExpr (ast t) /\
+  ast t = ESelect (EList [ECall $".g" None [ELit (VInt 1)]; EMap []; EStruct $".pkg.T" [($"f", EIdent $"x")]]) $"`a-b`" false.
+Proof.
+  vm_compute. repeat split; try discriminate; try reflexivity; try (repeat constructor; fail).
+  apply (lexable_escident $"a-b"); [discriminate|reflexivity].
+Qed.
+
 (** .pkg.T{f: a + b, g: [x.y]} * 2 : a message literal is a primary; its name keeps the leading dot *)
 Example C04_ex_message :
   let t := SMul TStar (SMsg true [$"pkg"; $"T"] [($"f", SAdd TPlus (SId $"a") (SId $"b")); ($"g", SLst [SSel (SId $"x") $"y"])])
@@ -169,3 +188,4 @@ Print Assumptions C04_source_roundtrip.
 Print Assumptions C04_macro_trees.
 Print Assumptions C04_macro_wf.
 Print Assumptions C04_macro_var_needed.
+Print Assumptions C04_escident_lexable.
